@@ -1,4 +1,5 @@
 import DdsModel.Split
+import DdsModel.EncRows
 import DdsModel.Drv.Util
 namespace Dds.Drv.C14
 open Dds
@@ -31,6 +32,51 @@ def geoString (sup : Option Support) (w h : Nat) (d : Dithering) (q : Quality) :
   let sv := SplitView.new w h sup d q
   s!"len={sv.len} frags={fmtFrags sv.fragments}"
 
+/-! ### `pad`: the padding rules of the data-flow model `EncRows.lean`
+
+Pixels are their own identity (`y·w + x + 1`); the per-unit functions show what they are given.  The
+block-aligned image is built by COORDINATES exactly as the harness does (extra columns = last pixel of
+the row, extra rows = first row of the last partial row group); the model runs its data flow (buffers,
+chunks, `padLast`, `padRows`) on both images. -/
+
+def colorNames : List String :=
+  ["g8", "a8", "rgb8", "rgba8", "g16", "a16", "rgb16", "rgba16", "g32", "a32", "rgb32", "rgba32"]
+
+def parseColor (s : String) : Option C19.ColorFormat :=
+  (colorNames.zip C19.ColorFormat.all).lookup s
+
+def dithPair : Dithering → C19.Dithering
+  | .none => ⟨false, false⟩ | .color => ⟨true, false⟩ | .alpha => ⟨false, true⟩
+  | .colorAndAlpha => ⟨true, true⟩
+
+def padString (name : String) (w h : Nat) (c : C19.ColorFormat) (d : Dithering) : String :=
+  match C19.Format.all.find? (fun f => f.name == name) with
+  | none => "bad-case"
+  | some f =>
+    match C19.encoderSet f, f.row.px with
+    | none, _ => "bad-case"
+    | _, .biPlanar _ _ _ _ => "bad-case"
+    | some s, px =>
+      match (s.pick c (dithPair d)).bind (s.encs[·]?) with
+      | none => "pad panic"
+      | some e =>
+        let (w, h) := normSize w h
+        let (bw, bh) := match px with | .block _ bw bh => (bw, bh) | _ => (1, 1)
+        let w' := divCeil w bw * bw
+        let h' := divCeil h bh * bh
+        let a := (List.range h).map fun y => (List.range w).map fun x => y * w + x + 1
+        let srcY := fun y => if y < h then y else h / bh * bh
+        let b := (List.range h').map fun y =>
+          (List.range w').map fun x => srcY y * w + min x (w - 1) + 1
+        let run := fun (wd : Nat) (img : List (List Nat)) =>
+          match px with
+          | .block _ _ 1 =>
+            EncRows.encSubsample bw (512 / bw * bw)
+              (fun y blk => if e.kind == C19.EncKind.bayer then (y % 8) :: blk else 0 :: blk) img
+          | .block _ _ _ => EncRows.encBlocks bw bh wd (fun data pitch => EncRows.blockAt bw bh data pitch) img
+          | _ => EncRows.encUncompressed .contiguous (fun x => [x]) 512 img
+        if run w a == run w' b then "pad ok eq" else "pad ok ne"
+
 def runC14 (line : String) : String :=
   match toks line with
   | ["sup", name] =>
@@ -52,6 +98,10 @@ def runC14 (line : String) : String :=
       -- bytes are not computed by the model: the three outputs are predicted equal
       -- (Theorems.C14.order_independent / fragmentwise_eq_whole)
       s!"enc ok {geoString sup w h d q} par=eq frag=eq"
+    | _, _, _, _, _ => "bad-case"
+  | ["pad", name, w, h, color, d, q, _seed] =>
+    match nat? w, nat? h, parseColor color, parseDith d, parseQuality q with
+    | some w, some h, some c, some d, some _ => padString name w h c d
     | _, _, _, _, _ => "bad-case"
   | _ => "bad-case"
 
